@@ -46,8 +46,18 @@ func (r *histRunner) doGCPark(op *Op) error {
 	done := make(chan struct{})
 	counts := map[string]int{}
 	used := make([]bool, len(op.Places))
+	viaAPI := false
+	for _, pl := range op.Places {
+		if pl.Point == "gc.pass.enter" {
+			viaAPI = true
+		}
+	}
 	relocating := "" // key whose record has been copied but not yet repointed (read by the client thread only while GC is parked)
 	handler := func(name string, args ...interface{}) {
+		if name == "gc.pass.exit" && viaAPI {
+			close(done)
+			return
+		}
 		if len(name) < 3 || name[:3] != "gc." || name == "gc.pass.exit" || name == "gc.request.checked" {
 			return
 		}
@@ -76,10 +86,20 @@ func (r *histRunner) doGCPark(op *Op) error {
 		hooks.extra = prev
 		hooks.mu.Unlock()
 	}()
-	go func() {
-		defer close(done)
-		r.store.gcMgr.gc(bkt, begin, end, op.Merge)
-	}()
+	if viaAPI {
+		// through HStore.GC, as the admin interface does: the bucket is claimed at request time, so CancelGC reaches a
+		// pass that has not entered its first file yet
+		b2, e2, err := r.store.GC(bid, op.Begin, op.End, -1, op.Merge, false)
+		if err != nil || b2 != begin || e2 != end {
+			return fmt.Errorf("HStore.GC(%d,%d,%d) = [%d,%d] %v, gcCheckRange accepted [%d,%d]", bid, op.Begin, op.End, b2, e2, err, begin, end)
+		}
+		r.label("gc_via_api")
+	} else {
+		go func() {
+			defer close(done)
+			r.store.gcMgr.gc(bkt, begin, end, op.Merge)
+		}()
+	}
 	r.gcPasses++
 	r.afterAnyGCPass()
 	r.label("gc")
